@@ -13,14 +13,14 @@ import (
 
 // Obligation is one rule instance.
 type Obligation struct {
-	Prop   string `json:"property"`
-	Rule   string `json:"rule"`      // e.g. "C15.R1 errflow"
-	Key    string `json:"key"`       // rule-id · function · construct  (no positions)
-	Pos    string `json:"pos"`       // file:line (informational)
-	Status string `json:"status"`    // discharged | violated | undecided | known
-	Fact   string `json:"fact"`      // what discharged it / what fails
-	Trivial bool  `json:"-"`
-	Config string `json:"config,omitempty"`
+	Prop    string `json:"property"`
+	Rule    string `json:"rule"`   // e.g. "C15.R1 errflow"
+	Key     string `json:"key"`    // rule-id · function · construct  (no positions)
+	Pos     string `json:"pos"`    // file:line (informational)
+	Status  string `json:"status"` // discharged | violated | undecided | known
+	Fact    string `json:"fact"`   // what discharged it / what fails
+	Trivial bool   `json:"-"`
+	Config  string `json:"config,omitempty"`
 }
 
 type Report struct {
